@@ -16,7 +16,7 @@ pub const FAULT_CLASSES: &[&str] = &[
     "RedeclarationAsType", "RedeclarationAsProcedure", "RedeclarationAsParameter", "RedeclarationAsVariable",
     "MustBeAReferenceParameter", "MainIsNotAProcedure", "MainMustNotHaveParameters", "MissingTrailingSemic", "MissingClosing",
     "UnaryMinusNonInteger", "AssignmentLevels", "UndefinedVariableNested", "NotAVariableNested", "UndefinedVariableInArgs",
-    "AnonymousArrayIdentity",
+    "AnonymousArrayIdentity", "CallOfShadowedProcedure",
 ];
 
 /// Inject one violation of rule `class` into a well-typed program.  Returns the new token list and the
@@ -153,6 +153,28 @@ pub fn inject(rng: &mut Rng, prog: &Prog, class: &str) -> Option<(Vec<Tok>, usiz
         let ins: Vec<Tok> = tpl.iter().map(|t| tok(t, nd)).collect();
         toks.splice(at..at, ins);
         return Some((toks, at + lo, at + lo + 1, "ArgumentsTypeMismatch".to_string()));
+    }
+    // a local variable or parameter hides a procedure of the same name: calling it is a call of a non-procedure
+    if class == "CallOfShadowedProcedure" {
+        let tpl: Vec<&str> = match rng.below(4) {
+            0 => vec!["proc", "pfa", "(", "i", ":", "int", ")", "{", "}",
+                      "proc", "pfb", "(", ")", "{", "var", "pfa", ":", "int", ";", "pfa", "(", "1", ")", ";", "}"],
+            1 => vec!["proc", "pfb", "(", ")", "{", "var", "printi", ":", "int", ";", "printi", "(", "printi", ")", ";", "}"],
+            2 => vec!["proc", "pfb", "(", "pfc", ":", "int", ")", "{", "pfc", "(", "pfc", ")", ";", "}",
+                      "proc", "pfc", "(", "i", ":", "int", ")", "{", "}"],
+            _ => vec!["proc", "pfb", "(", ")", "{", "var", "pfb", ":", "int", ";", "pfb", "(", ")", ";", "}"],
+        };
+        // the culprit is the call statement: from the callee (the token before the last `(` that follows a `;`
+        // or `{`) to its `;`
+        let semi = tpl.iter().rposition(|t| *t == ";")?;
+        let mut lo = semi;
+        while lo > 0 && tpl[lo - 1] != ";" && tpl[lo - 1] != "{" {
+            lo -= 1;
+        }
+        let at = toks.len();
+        let ins: Vec<Tok> = tpl.iter().map(|t| tok(t, nd)).collect();
+        toks.splice(at..at, ins);
+        return Some((toks, at + lo, at + semi + 1, "CallOfNoneProcedure".to_string()));
     }
     if let Some((tpl, lo, hi)) = decl {
         let at = if class == "MainIsNotAProcedure" { 0 } else { toks.len() };
